@@ -180,8 +180,22 @@ func validateMXIDMappingSignatures(ctx context.Context, e PDU, mapping MXIDMappi
 		return err
 	}
 
-	var toVerify []VerifyJSONRequest
+	// The mapping must be signed by the server of the user it names: a mapping that is not
+	// signed at all, or only by other servers, proves nothing.
+	userID, err := spec.NewUserID(mapping.UserID, true)
+	if err != nil {
+		return fmt.Errorf("failed to verify MXIDMapping: %w", err)
+	}
+	toVerify := []VerifyJSONRequest{{
+		Message:              mappingBytes,
+		AtTS:                 e.OriginServerTS(),
+		ServerName:           userID.Domain(),
+		ValidityCheckingFunc: verImpl.SignatureValidityCheck,
+	}}
 	for s := range mapping.Signatures {
+		if s == userID.Domain() {
+			continue
+		}
 		v := VerifyJSONRequest{
 			Message:              mappingBytes,
 			AtTS:                 e.OriginServerTS(),
